@@ -638,8 +638,8 @@ func TestVerif_C43(t *testing.T) {
 		c43Run(c, c43Cfg{part: "deep",
 			names:      []string{"/", "/a", "/a/b"},
 			pairNames:  []string{"/a/b"},
-			createDur:  []int{-1, 2},
-			refreshDur: []int{3},
+			createDur:  []int{-1, 0, 2},
+			refreshDur: []int{-1, 0, 3},
 			ticks:      []int{1, 3},
 			maxTok:     vx.Pick(c, 2, 3), maxH: 2,
 			depth: vx.Pick(c, 10, 12)})
